@@ -72,7 +72,7 @@ CHECK_TEXT = {
               "Bounded: each function of the property x argument lists x syntactic contexts against Snowflake's documented results. Known findings (4) printed.",
               "Not proof for the property as a whole: value/type semantics of each rewrite are DuckDB's on the rewritten SQL; the other node-level rewrite functions are not under contract (A-TX)."),
     "C11": _o("Deductive slice: the order-sensitive JSON rewrites are applied in the order their correctness depends on, for every statement; v['k'] / v[n] become the extraction of $.k / $[n]; every path extraction is parenthesised whatever its parent; "
-              "FLATTEN VALUE::varchar is the raw text wherever the flatten sits in the SELECT; VARIANT/OBJECT/ARRAY types are JSON; ARRAY_SIZE is CASE WHEN json_array_length(v) THEN json_array_length(v) END without a default; TRY_PARSE_JSON is a TRY_CAST to JSON; SPLIT is wrapped in to_json; UPPER/LOWER over an extraction read its raw text. Bounded: JSON documents x paths x casts x contexts against navigating the same "
+              "FLATTEN VALUE::varchar is the raw text wherever the flatten sits in the SELECT; VARIANT/OBJECT/ARRAY types are JSON; ARRAY_SIZE is CASE WHEN json_array_length(v) THEN json_array_length(v) END without a default; TRY_PARSE_JSON is a TRY_CAST to JSON; SPLIT is wrapped in to_json; UPPER/LOWER over an extraction read its raw text; LATERAL FLATTEN(input => v) unnests exactly v as JSON[] under the same alias with column VALUE. Bounded: JSON documents x paths x casts x contexts against navigating the same "
               "document in Python. Known findings (6) printed.",
               "Not proof for the property as a whole: JSON semantics are DuckDB's json extension; the other node-level rewrites are not under contract (A-TX)."),
     "C12": _o("Deductive slice: merge() produces candidates + one mutation per WHEN clause in clause order + counts, parses each generated statement once, passes non-MERGE statements through and fails only for a MERGE; "
